@@ -656,3 +656,22 @@ M('R35-searchsorted-unsorted', 'R35',
   'search on an unsorted sequence')
 T('R35-searchsorted-sorted', 'R35',
   [('gcp.py', "                socp_idx = flat(primal.qmat)\n", "                socp_idx = flat(primal.qmat)\n                below = np.searchsorted(np.sort(socp_idx), pvar_num)\n")])
+
+M('R36-rounded-eigenvalues-used', 'R36',
+  [('lp.py', "        sqrt_mat = np.real(sqrtm(sign*qmat))\n", "        sqrt_mat = np.real(sqrtm(sign*qmat)) * (1 + 0*eighvals.sum())\n")],
+  'rounded value')
+M('R36-transpose-from-part', 'R36',
+  [('lp.py', "        raffine = sp_trans(self) @ self.raffine\n        affine = self.affine.T\n",
+    "        affine = self.affine.T\n        raffine = sp_trans(affine) @ self.raffine\n")], 'transpose permutation')
+M('R20-reference-model-rebound', 'R20',
+  [('lp.py', "        if model is None:\n            model = item.model\n            num_var = model.last\n        else:\n            if model != item.model:\n                raise ValueError('Model mismatch.')\n",
+    "        if model is None or item.model.last > num_var:\n            model = item.model\n            num_var = model.last\n        else:\n            if model != item.model:\n                raise ValueError('Model mismatch.')\n")],
+  'reference model re-bound')
+M('R22-aux-upper-bound', 'R22',
+  [('gcp.py', "            ub = np.concatenate((ub, np.ones(right_width) * np.inf))\n", "            ub = np.concatenate((ub, np.ones(right_width)))\n")],
+  'to_socp', error_ok=True)
+M('R27-scenario-keyed-memo', 'R27',
+  [('dro.py', "        self.ro_model.reset()\n        self.rule_var()\n", "        self.ro_model.reset()\n        self.rule_var()\n        self.sup_memo = {}\n"),
+   ('dro.py', "                    ew_constr = ew_constr.forall(support)\n",
+    "                    if s not in self.sup_memo:\n                        self.sup_memo[s] = ew_constr.forall(support).support\n                    ew_constr.support = self.sup_memo[s]\n")],
+  'under-keyed memo')
